@@ -373,11 +373,17 @@ func orNone(s string) string {
 func ruleC02AnchorGate(c *Ctx) {
 	const rule = "C02/anchor-gate"
 	res := c.Closure(rule, "RES").Minus(c.Closure(rule, "EV"))
-	n := 0
+	per := map[string]int{}
 	for _, fn := range res.Sorted() {
 		core.EachInstr(fn, func(i ssa.Instruction) {
 			call, ok := i.(*ssa.Call)
 			if !ok || call.Call.StaticCallee() != nil && !c.P.InPkg(call.Call.StaticCallee()) {
+				// the anchor name taken from a fragment-only $id: wherever it is computed (it may be kept for a later pass)
+				if ok && core.CalleeKey(&call.Call) == "strings.TrimPrefix" && c.mentionsField(call.Call.Args[0], "Schema.ID", 3) {
+					per["fragment $id"]++
+					c.R.Check(c.guardedByDraft(call, "draft7"), rule, core.FuncName(fn)+":fragment $id", c.pos(call), "a fragment-only $id becomes an anchor name only under draft7",
+						"a fragment-only $id is turned into an anchor name without a test that the document's draft is draft7: in 2020-12 such an $id is an error, not a reference target")
+				}
 				return
 			}
 			if callee := call.Call.StaticCallee(); callee != nil && callee.Name() == "String" {
@@ -390,21 +396,19 @@ func ruleC02AnchorGate(c *Ctx) {
 					field, draft = "$anchor", "draft2020"
 				case c.isDirectFieldLoad(a, "Schema.DynamicAnchor"):
 					field, draft = "$dynamicAnchor", "draft2020"
-				default:
-					if sc, ok := a.(*ssa.Call); ok && core.CalleeKey(&sc.Call) == "strings.TrimPrefix" && c.mentionsField(sc.Call.Args[0], "Schema.ID", 3) {
-						field, draft = "fragment $id", "draft7"
-					}
 				}
 				if field == "" {
 					continue
 				}
-				n++
+				per[field]++
 				c.R.Check(c.guardedByDraft(call, draft), rule, core.FuncName(fn)+":"+field, c.pos(call), field+" is registered as an anchor only under "+draft,
 					field+" is registered as an anchor without a test that the document's draft is "+draft+": in the other draft the keyword is not part of the vocabulary and must not create reference targets")
 			}
 		})
 	}
-	c.R.Floor(rule, "anchor registrations", n, 3)
+	for _, k := range []string{"$anchor", "$dynamicAnchor", "fragment $id"} {
+		c.R.Floor(rule, "anchor registrations of "+k, per[k], 1)
+	}
 }
 
 func (c *Ctx) isDirectFieldLoad(v ssa.Value, field string) bool {
